@@ -9,11 +9,17 @@
 //        C08_replay product         product features over int8 / uint32 / int32 / float32 sources must equal the product
 //                                   of the two stored values taken in scalar_t
 //        C08_replay flags           shuffle(f); drop(f) must leave f missing (drop/shuffle protocol)
+//        C08_replay list <N> i0 i1 ..  an arbitrary (unsorted) sample list: rejected iff some entry is outside [0, N)
+//        C08_replay feature <f>     a feature index outside [0, features()) must be rejected by feature() / select()
+//        C08_replay onehot          scalar feature first, 3-class feature last: every flattened row must be
+//                                   [value, one-hot(label) over 2 columns] (a label C-1 lights no column)
 #include <nano/dataset.h>
 #include <nano/generator/elemwise_identity.h>
 #include <nano/generator/pairwise_product.h>
 #include <cmath>
 #include <cstring>
+#include <sys/wait.h>
+#include <unistd.h>
 #include <cstdio>
 #include <cstdlib>
 using namespace nano;
@@ -300,8 +306,142 @@ static int flags_main()
     return bad > 0 ? 1 : 0;
 }
 
+// ---- scenario: arbitrary sample list against the range guard
+static int list_main(int argc, char* argv[])
+{
+    const auto N          = static_cast<tensor_size_t>(argc > 2 ? std::atol(argv[2]) : 10);
+    auto       datasource = memory_datasource_t{N};
+    datasource.load();
+    auto dataset = dataset_t{datasource, 1U};
+    dataset.add<scalar_identity_generator_t>();
+    dataset.add<sclass_identity_generator_t>();
+
+    const auto count = static_cast<tensor_size_t>(argc > 3 ? argc - 3 : 0);
+    indices_t  samples(count);
+    bool       out_range = false;
+    std::printf("samples()=%ld list=[", static_cast<long>(N));
+    for (tensor_size_t i = 0; i < count; ++i)
+    {
+        samples(i) = static_cast<tensor_size_t>(std::atol(argv[3 + i]));
+        out_range  = out_range || samples(i) < 0 || samples(i) >= N;
+        std::printf("%s%ld", i ? "," : "", static_cast<long>(samples(i)));
+    }
+    std::printf("] (%s)\n", out_range ? "has an entry outside [0, samples())" : "all entries valid");
+    int accepted_calls = 0;
+    {
+        tensor2d_t buffer;
+        accepted_calls += accepted("flatten(list)", count > 1 ? samples(1) : -1, [&]() { dataset.flatten(samples, buffer); });
+    }
+    {
+        scalar_mem_t buffer;
+        accepted_calls += accepted("select(list, feature 0)", count > 1 ? samples(1) : -1, [&]() { dataset.select(samples, 0, buffer); });
+    }
+    return (out_range && accepted_calls > 0) ? 1 : 0;
+}
+
+// ---- scenario: feature index against the range guard
+static int feature_main(const tensor_size_t feature)
+{
+    auto datasource = memory_datasource_t{16};
+    datasource.load();
+    auto dataset = dataset_t{datasource, 1U};
+    dataset.add<scalar_identity_generator_t>();
+    dataset.add<sclass_identity_generator_t>();
+    const auto out_range = feature < 0 || feature >= dataset.features();
+    std::printf("features()=%ld feature=%ld (%s [0, features()))\n", static_cast<long>(dataset.features()),
+                static_cast<long>(feature), out_range ? "outside" : "inside");
+    // the call runs in a child process: an accepted out-of-range index goes on to index the feature mapping out of bounds
+    std::fflush(stdout);
+    const auto pid = fork();
+    if (pid == 0)
+    {
+        try
+        {
+            dataset.drop(feature);
+        }
+        catch (const std::exception&)
+        {
+            _exit(0);
+        }
+        _exit(1);
+    }
+    int status = 0;
+    waitpid(pid, &status, 0);
+    const auto rejected = WIFEXITED(status) && WEXITSTATUS(status) == 0;
+    std::printf("  drop(%ld): %s\n", static_cast<long>(feature),
+                rejected ? "rejected with an exception" : WIFSIGNALED(status) ? "ACCEPTED (no exception; then crashed reading out of range)" : "ACCEPTED (no exception)");
+    return (out_range && !rejected) ? 1 : 0;
+}
+
+// ---- scenario: one-hot flatten of a single-label feature that owns the last columns
+class onehot_datasource_t final : public datasource_t
+{
+public:
+    onehot_datasource_t()
+        : datasource_t("replay-onehot")
+    {
+    }
+
+    rdatasource_t clone() const override { return std::make_unique<onehot_datasource_t>(*this); }
+
+    static constexpr tensor_size_t N = 9;
+
+private:
+    void do_load() override
+    {
+        resize(N, features_t{feature_t{"x"}.scalar(feature_type::float64), feature_t{"cat"}.sclass(strings_t{"a", "b", "c"})});
+        for (tensor_size_t sample = 0; sample < N; ++sample)
+        {
+            set(sample, 0, 100.0 + static_cast<double>(sample));
+            set(sample, 1, sample % 3);
+        }
+    }
+};
+
+static int onehot_main()
+{
+    auto datasource = onehot_datasource_t{};
+    datasource.load();
+    auto dataset = dataset_t{datasource, 1U};
+    dataset.add<scalar_identity_generator_t>();
+    dataset.add<sclass_identity_generator_t>();
+
+    // one spare row at the end of the buffer keeps a stray write inside the allocation
+    const auto samples = arange(0, onehot_datasource_t::N - 1);
+    tensor2d_t buffer(onehot_datasource_t::N, 3);
+    const auto flatten = dataset.flatten(samples, buffer);
+    int        bad     = 0;
+    for (tensor_size_t s = 0; s < samples.size(); ++s)
+    {
+        const auto label = s % 3;
+        const auto e0 = 100.0 + static_cast<double>(s), e1 = label == 0 ? 1.0 : -1.0, e2 = label == 1 ? 1.0 : -1.0;
+        if (flatten(s, 0) != e0 || flatten(s, 1) != e1 || flatten(s, 2) != e2)
+        {
+            if (bad++ < 3)
+            {
+                std::printf("  row %ld (label %ld): flatten = [%g, %g, %g], expected [%g, %g, %g]\n", static_cast<long>(s),
+                            static_cast<long>(label), flatten(s, 0), flatten(s, 1), flatten(s, 2), e0, e1, e2);
+            }
+        }
+    }
+    std::printf("onehot: %d of %ld rows differ from [value, one-hot(label)]\n", bad, static_cast<long>(samples.size()));
+    return bad > 0 ? 1 : 0;
+}
+
 int main(int argc, char* argv[])
 {
+    if (argc > 1 && std::strcmp(argv[1], "list") == 0)
+    {
+        return list_main(argc, argv);
+    }
+    if (argc > 1 && std::strcmp(argv[1], "feature") == 0)
+    {
+        return feature_main(static_cast<tensor_size_t>(argc > 2 ? std::atol(argv[2]) : 2));
+    }
+    if (argc > 1 && std::strcmp(argv[1], "onehot") == 0)
+    {
+        return onehot_main();
+    }
     if (argc > 1 && std::strcmp(argv[1], "storage") == 0)
     {
         return storage_main(static_cast<tensor_size_t>(argc > 2 ? std::atol(argv[2]) : 256));
